@@ -46,6 +46,33 @@ example : "SHORT-ARM z_9É".toList.map modelTrLower = "short_arm z_9É".toList :
 private theorem lit_hash2 : ("##".toList : Str) = ['#', '#'] := rfl
 private theorem lit_hash1 : ("#".toList : Str) = ['#'] := rfl
 
+/-! ### the loop state of the two generated parsers
+
+  `harness/translate_imp.py` carries the loop variables in a tuple ordered by variable name.  `vars⟨…⟩` is that tuple with
+  its components named in the order the PROOFS use (the argument order of `srcState` / `ArenaInv`); it is the only place
+  in this file that knows the generated order — if the translator permutes the tuple, permute the right-hand side of the
+  macro and the type `ParseVars`, nothing else. -/
+
+/-- `vars⟨asm_header, scaffold_name, scaffold, heap_sc, asm_scaffolds, nextOid⟩`, as the generated code packs them:
+    `(asm_header, asm_scaffolds, heap_sc, nextOid, scaffold, scaffold_name)`; a term and a pattern -/
+local macro "vars⟨" hdr:term ", " nm:term ", " sc:term ", " heap:term ", " refs:term ", " oid:term "⟩" : term =>
+  `(($hdr, $refs, $heap, $oid, $sc, $nm))
+
+/-- the type of that tuple (both parsers carry the same variables) -/
+abbrev ParseVars : Type := List Str × List Nat × List Scaffold × Nat × Option Nat × Str
+
+/-- the loop invariant: the model's state is `srcState` of the source's variables, and the arena invariant holds -/
+def ParseRel (s : ParseVars) (t : ParseState) : Prop :=
+  match s with
+  | vars⟨hdr, nm, sc, heap, refs, oid⟩ => t = srcState hdr nm sc heap oid ∧ ArenaInv sc heap refs
+
+theorem parseRel_iff {hdr : List Str} {nm : Str} {sc : Option Nat} {heap : List Scaffold} {refs : List Nat} {oid : Nat}
+    {t : ParseState} :
+    ParseRel vars⟨hdr, nm, sc, heap, refs, oid⟩ t ↔ (t = srcState hdr nm sc heap oid ∧ ArenaInv sc heap refs) := Iff.rfl
+
+theorem parseRel_mk {hdr : List Str} {nm : Str} {sc : Option Nat} {heap : List Scaffold} {refs : List Nat} {oid : Nat}
+    (h : ArenaInv sc heap refs) : ParseRel vars⟨hdr, nm, sc, heap, refs, oid⟩ (srcState hdr nm sc heap oid) := ⟨rfl, h⟩
+
 /-- the rest of an AGP row line once the current scaffold is settled (`hI`: the invariant for the variables as they are
     now): the two sides do the same lookups and conversions in the same order, then add the row to the same scaffold -/
 local macro "agp_row_tail " hI:ident : tactic => `(tactic| (
@@ -59,7 +86,7 @@ local macro "agp_row_tail " hI:ident : tactic => `(tactic| (
     refine stepSim_bind fun f6 h6 => ?_
     refine stepSim_bind fun len hlen => ?_
     rw [srcState_addRow_some _ _ _ _ _ _ _ $hI]
-    exact stepSim_next ⟨rfl, arenaInv_addRow $hI _ _⟩
+    exact stepSim_next (parseRel_mk (arenaInv_addRow $hI _ _))
   · -- a fragment row
     refine stepSim_needObj _ _ _ _ _ fun r hr => ?_
     cases hr
@@ -72,34 +99,32 @@ local macro "agp_row_tail " hI:ident : tactic => `(tactic| (
     refine stepSim_bind fun e he => ?_
     refine stepSim_bind fun f hf => ?_
     rw [srcState_addRow_some _ _ _ _ _ _ _ $hI]
-    exact stepSim_next ⟨rfl, arenaInv_addRow $hI _ _⟩))
+    exact stepSim_next (parseRel_mk (arenaInv_addRow $hI _ _))))
 
 /-- the source's `parse_agp` is the model's `parseAgp`: same assembly, same exception class otherwise -/
 theorem parse_agp_is_source (lines : List Str) :
     (Gen.Imp.parse_agp_imp 0 lines).map srcAssembly = parseAgp lines := by
   unfold Gen.Imp.parse_agp_imp parseAgp
   dsimp only
-  -- the loop variables, in the generated order: (asm_header, scaffold_name, scaffold, heap_sc, asm_scaffolds, nextOid)
-  apply forIn_sim_finish
-    (Rel := fun (s : List Str × Str × Option Nat × List Scaffold × List Nat × Nat) (t : ParseState) =>
-      t = srcState s.1 s.2.1 s.2.2.1 s.2.2.2.1 s.2.2.2.2.2 ∧ ArenaInv s.2.2.1 s.2.2.2.1 s.2.2.2.2.1)
-    (step := parseAgpLine)
-  · exact ⟨rfl, arenaInv_init⟩
+  -- the loop variables are packed as `vars⟨…⟩` (above)
+  apply forIn_sim_finish (Rel := ParseRel) (step := parseAgpLine)
+  · exact parseRel_mk arenaInv_init
   · -- one line
-    intro line ⟨hdr, nm, sc, heap, refs, oid⟩ t ⟨ht, hinv⟩
+    intro line vars⟨hdr, nm, sc, heap, refs, oid⟩ t h
+    obtain ⟨ht, hinv⟩ := parseRel_iff.mp h
     subst ht
     dsimp only at hinv ⊢
     unfold parseAgpLine
     simp only [lit_hash1, lit_hash2]
     by_cases hb : isBlankLine line = true
-    · simp only [hb, if_true]; exact stepSim_next ⟨rfl, hinv⟩
+    · simp only [hb, if_true]; exact stepSim_next (parseRel_mk hinv)
     by_cases h2 : startsWith ['#', '#'] line = true
-    · simp only [hb, h2, if_true, Bool.false_eq_true, if_false]; exact stepSim_next ⟨rfl, hinv⟩
+    · simp only [hb, h2, if_true, Bool.false_eq_true, if_false]; exact stepSim_next (parseRel_mk hinv)
     by_cases h1 : startsWith ['#'] line = true
     · simp only [hb, h2, h1, if_true, Bool.false_eq_true, if_false]
       cases headerText line with
-      | none => exact stepSim_next ⟨rfl, hinv⟩
-      | some h => exact stepSim_next ⟨rfl, hinv⟩
+      | none => exact stepSim_next (parseRel_mk hinv)
+      | some h => exact stepSim_next (parseRel_mk hinv)
     simp only [hb, h2, h1, Bool.false_eq_true, if_false]
     generalize splitOnChar '\t' (rstripBy isSpace line) = fields
     refine stepSim_bind fun f0 h0 => ?_
@@ -112,7 +137,8 @@ theorem parse_agp_is_source (lines : List Str) :
       simp only [ne_eq, hn, not_false_eq_true, decide_true, if_true, h0, bind_ok, srcState_switch_ne _ _ _ _ _ _ hn]
       agp_row_tail hI
   · -- `return asm`
-    intro ⟨hdr, nm, sc, heap, refs, oid⟩ t ⟨ht, hinv⟩
+    intro vars⟨hdr, nm, sc, heap, refs, oid⟩ t h
+    obtain ⟨ht, hinv⟩ := parseRel_iff.mp h
     subst ht
     dsimp only at hinv ⊢
     rw [hinv.1]
@@ -182,32 +208,30 @@ local macro "tpf_row_tail " hI:ident : tactic => `(tactic| (
     refine stepSim_bind fun e he => ?_
     refine stepSim_bind fun f hf => ?_
     rw [srcState_addRow_some _ _ _ _ _ _ _ $hI]
-    exact stepSim_next ⟨rfl, arenaInv_addRow $hI _ _⟩))
+    exact stepSim_next (parseRel_mk (arenaInv_addRow $hI _ _))))
 
 /-- the source's `parse_tpf` is the model's `parseTpf`: same assembly, same exception class otherwise -/
 theorem parse_tpf_is_source (lines : List Str) :
     (Gen.Imp.parse_tpf_imp 0 lines modelTrLower).map srcAssembly = parseTpf lines := by
   unfold Gen.Imp.parse_tpf_imp parseTpf
   dsimp only
-  -- the loop variables, in the generated order: (asm_header, scaffold, heap_sc, scaffold_name, asm_scaffolds, nextOid)
-  apply forIn_sim_finish
-    (Rel := fun (s : List Str × Option Nat × List Scaffold × Str × List Nat × Nat) (t : ParseState) =>
-      t = srcState s.1 s.2.2.2.1 s.2.1 s.2.2.1 s.2.2.2.2.2 ∧ ArenaInv s.2.1 s.2.2.1 s.2.2.2.2.1)
-    (step := parseTpfLine)
-  · exact ⟨rfl, arenaInv_init⟩
+  -- the loop variables are packed as `vars⟨…⟩` (above)
+  apply forIn_sim_finish (Rel := ParseRel) (step := parseTpfLine)
+  · exact parseRel_mk arenaInv_init
   · -- one line
-    intro line ⟨hdr, sc, heap, nm, refs, oid⟩ t ⟨ht, hinv⟩
+    intro line vars⟨hdr, nm, sc, heap, refs, oid⟩ t h
+    obtain ⟨ht, hinv⟩ := parseRel_iff.mp h
     subst ht
     dsimp only at hinv ⊢
     unfold parseTpfLine
     simp only [lit_hash1, isCrLf_eq_contains]
     by_cases hb : isBlankLine line = true
-    · simp only [hb, if_true]; exact stepSim_next ⟨rfl, hinv⟩
+    · simp only [hb, if_true]; exact stepSim_next (parseRel_mk hinv)
     by_cases h1 : startsWith ['#'] line = true
     · simp only [hb, h1, if_true, Bool.false_eq_true, if_false]
       cases headerText line with
-      | none => exact stepSim_next ⟨rfl, hinv⟩
-      | some h => exact stepSim_next ⟨rfl, hinv⟩
+      | none => exact stepSim_next (parseRel_mk hinv)
+      | some h => exact stepSim_next (parseRel_mk hinv)
     simp only [hb, h1, Bool.false_eq_true, if_false]
     generalize splitOnChar '\t' (rstripBy isCrLf line) = fields
     refine stepSim_bind fun f0 h0 => ?_
@@ -223,7 +247,7 @@ theorem parse_tpf_is_source (lines : List Str) :
         simp only [hf1, bind_ok, tpfGapTypeOfText_eq_getD]
         refine stepSim_bind fun len hlen => ?_
         rw [srcState_addRow_some _ _ _ _ _ _ _ hinv]
-        exact stepSim_next ⟨rfl, arenaInv_addRow hinv _ _⟩
+        exact stepSim_next (parseRel_mk (arenaInv_addRow hinv _ _))
     · refine stepSim_ite (by simp; omega) (fun h4 => ?_) (fun h4 => ?_)
       · -- a fragment line; `if fields[2] != scaffold_name:` — either way the invariant holds afterwards
         refine stepSim_bind fun f2 h2 => ?_
@@ -237,7 +261,8 @@ theorem parse_tpf_is_source (lines : List Str) :
       · -- wrong field count
         exact stepSim_error _
   · -- `return asm`
-    intro ⟨hdr, sc, heap, nm, refs, oid⟩ t ⟨ht, hinv⟩
+    intro vars⟨hdr, nm, sc, heap, refs, oid⟩ t h
+    obtain ⟨ht, hinv⟩ := parseRel_iff.mp h
     subst ht
     dsimp only at hinv ⊢
     rw [hinv.1]
